@@ -461,10 +461,15 @@ def gPGMParams? (j : Json) : Option (PGMParams FV Float FV) := do
 
 /-! ### replies -/
 
+def errName : Err → String
+  | .value => "value"
+  | .type => "type"
+  | .index => "index"
+
 def jExcept (r : Except Err Float) : Json :=
   match r with
   | .ok v => ok (jObj [("v", jF v)])
-  | .error .value => err "value"
+  | .error e => err (errName e)
 
 def runTrace {σ} (impl spec : σ → σ) (enc : σ → Json) (mode : String) (k : Nat) (s : σ) : Option Json :=
   match mode with
@@ -551,17 +556,19 @@ def handler : Handler := fun op j =>
         { f := none, g := List.replicate ng dummyG, proxg := List.replicate ng dummyP,
           C := List.replicate nc (fun x => x), Cadj := List.replicate nc (fun z => z), rho := List.replicate nrho 1.0,
           alpha := 1.0, solveX := fun _ _ x => x, normX := FV.norm, normZ := FV.norm }
-      match admmInitChecked p (some (FV.zeros n)) with
+      let reduces := (fBool? j "reduces").getD true
+      let x0none := (fBool? j "x0none").getD false
+      match admmInitFull reduces p (if x0none then none else some (FV.zeros n)) with
       | .ok s => some (ok (jObj [("nz", jN s.z.length), ("nu", jN s.u.length), ("nzold", jN s.zOld.length)]))
-      | .error .value => some (err "value")
+      | .error e => some (err (errName e))
     | "pgm" =>
       match pgmInitChecked (← fBool? j "has_prox") (← fFloat? j "L0") inf (← fFV? j "x0") (0 : FV) with
       | .ok s => some (ok (jPGM s))
-      | .error .value => some (err "value")
+      | .error e => some (err (errName e))
     | "apgm" =>
       match apgmInitChecked (← fBool? j "has_prox") (← fFloat? j "L0") inf (← fFV? j "x0") (0 : FV) with
       | .ok s => some (ok (jAPGM s))
-      | .error .value => some (err "value")
+      | .error e => some (err (errName e))
     | _ => none
   | "acc" => do
     let alg ← fStr? j "alg"
